@@ -45,7 +45,7 @@ func (m *Mutex) lock(site string) {
 		m.waiters = append(m.waiters, c)
 		g.Unlock()
 		<-c
-		zzmc.After(site)
+		zzmc.Woke(site)
 	}
 }
 
@@ -115,7 +115,7 @@ func (m *RWMutex) Lock() {
 		m.waiters = append(m.waiters, c)
 		g.Unlock()
 		<-c
-		zzmc.After(site)
+		zzmc.Woke(site)
 	}
 }
 
@@ -149,7 +149,7 @@ func (m *RWMutex) RLock() {
 		m.waiters = append(m.waiters, c)
 		g.Unlock()
 		<-c
-		zzmc.After(site)
+		zzmc.Woke(site)
 	}
 }
 
@@ -205,7 +205,7 @@ func (o *Once) Do(f func()) {
 		o.wait = append(o.wait, c)
 		g.Unlock()
 		<-c
-		zzmc.After(site)
+		zzmc.Woke(site)
 	}
 }
 
@@ -270,7 +270,7 @@ func (w *WaitGroup) Wait() {
 	w.wait = append(w.wait, c)
 	g.Unlock()
 	<-c
-	zzmc.After(site)
+	zzmc.Woke(site)
 }
 
 // ---- the rest of the sync API, so that changes to the code under test keep compiling
@@ -296,7 +296,7 @@ func (c *Cond) Wait() {
 	g.Unlock()
 	c.L.Unlock()
 	<-ch
-	zzmc.After(site)
+	zzmc.Woke(site)
 	c.L.Lock()
 }
 
